@@ -36,7 +36,10 @@ Nz(S) == IF Cardinality(S) < 0 THEN {} ELSE S
 (* wb = [sheets, gnames, active, macro]                                     *)
 (* sheet = [name, cells {[r,c,k,v,f,sm,sty]}, links {[r,c,url,loc,tip]}, merges {[r1,c1,r2,c2]},            *)
 (*          names <<[name,addr,lsid]>>, comments {[r,c]}, tables <<name>>, imgs <<[name,ext]>>, charts,     *)
-(*          nole, vmlnoimg, dv, cfr <<number of rules>>, prot, rowdims {r}]                                 *)
+(*          nole, vmlnoimg, dv, cfr << <<format of a rule>> >>, prot, rowdims {r}]                          *)
+(* cfr: one sequence of rules per conditional format; the format of a rule is what its style formats with, *)
+(* [has, font ("" none | "b" bold | "n" not bold), fg, bg (fill colours AARRGGBB), border (left edge style),   *)
+(*  numfmt (code), prot]; has = FALSE: the rule has no style (colour scales, data bars ...).                    *)
 (* cell kinds k: "text" "num" "bool" "err"; with a formula f the value is the cached result and k may be    *)
 (* "blank" (none).  sm # "" marks a child of a shared formula (reference of the master cell).               *)
 EmptySheet(name) ==
@@ -66,7 +69,11 @@ Post_Table(wb, s, name)       == [wb EXCEPT !.sheets[s].tables = Append(@, name)
 Post_Image(wb, s, img)        == [wb EXCEPT !.sheets[s].imgs = Append(@, img)]
 Post_Chart(wb, s)             == [wb EXCEPT !.sheets[s].charts = @ + 1]
 Post_Validation(wb, s)        == [wb EXCEPT !.sheets[s].dv = @ + 1]
-Post_CondFmt(wb, s, rules)    == [wb EXCEPT !.sheets[s].cfr = Append(@, rules)]
+Post_CondFmt(wb, s, rules)    == [wb EXCEPT !.sheets[s].cfr = Append(@, rules)]          \* rules: a sequence of formats
+NoFmt == [has |-> FALSE, font |-> "", fg |-> "", bg |-> "", border |-> "", numfmt |-> "", prot |-> FALSE]
+(* the differential format (CT_Dxf) that carries a rule's formatting *)
+DxfOf(f) == [font |-> f.font, fg |-> f.fg, bg |-> f.bg, border |-> f.border, numfmt |-> f.numfmt, prot |-> f.prot]
+FlatRules(S) == FoldLeft(LAMBDA a, b : a \o b, <<>>, S.cfr)
 Post_Protect(wb, s)           == [wb EXCEPT !.sheets[s].prot = TRUE]
 Post_RowDim(wb, s, r)         == [wb EXCEPT !.sheets[s].rowdims = @ \cup {r}]
 Post_Macro(wb, on)            == [wb EXCEPT !.macro = on]
@@ -94,7 +101,9 @@ Content(wb) == [sheets |-> [i \in DOMAIN wb.sheets |->
 (*      rels <<[src, items <<[id, kind, target, ext]>>]>>,  uses <<[part, elem, rid]>>,                   *)
 (*      wbs <<[name, id, rid]>>, active,                                                                  *)
 (*      sheets <<[part, children <<name>>, rows <<[r, cs <<col>>, rr <<row numbers in cell refs>>]>>,     *)
-(*                sx <<s= used>>, ssx <<shared string indices used>>, dxf <<dxfId used>>]>>,              *)
+(*                sx <<s= used>>, ssx <<shared string indices used>>, dxf <<dxfId used>>,                 *)
+(*                cfx <<[dxf]>> the cfRule elements in document order with their dxfId (-1 = none)]>>,    *)
+(*      dxfs <<[font, fg, bg, border, numfmt, prot]>> the <dxf> entries of the style sheet,               *)
 (*      nxf, ndxf, nsst, xfs <<[font, fill, border, xf, numfmt]>>, nfonts, nfills, nborders, ncsx,        *)
 (*      numfmts <<custom ids>>, tableids <<id>>]                                                          *)
 
@@ -166,6 +175,22 @@ NoOffence == [zip |-> {}, dupentry |-> {}, notwf |-> {}, untyped |-> {}, dupreli
 Clauses == DOMAIN NoOffence
 PackageOK(p) == Offences(p) = NoOffence
 
+(* "every differential-format index points inside its table", rule by rule against the workbook: the k-th cfRule of
+   sheet s has a dxfId iff the k-th rule of the model has a style, the index lies inside <dxfs>, and the entry it
+   designates is a differential format that carries the rule's formatting (Carriers(format): the acceptable entries;
+   the intended design has exactly one, DxfOf(format)) *)
+RuleOK(p, x, f, Carriers(_)) == IF ~f.has THEN x.dxf = -1
+                                ELSE In0(x.dxf, Len(p.dxfs)) /\ p.dxfs[x.dxf + 1] \in Carriers(f)
+RuleOffences(p, wb, Carriers(_)) ==
+  UNION {IF s \notin DOMAIN p.sheets \/ Len(p.sheets[s].cfx) # Len(FlatRules(wb.sheets[s]))
+         THEN {<<"rules of sheet", s, "model", Len(FlatRules(wb.sheets[s])), "file", IF s \in DOMAIN p.sheets THEN Len(p.sheets[s].cfx) ELSE -1>>}
+         ELSE {<<"rule", s, k, "dxfId", p.sheets[s].cfx[k].dxf, "of", Len(p.dxfs), "entry",
+                 IF In0(p.sheets[s].cfx[k].dxf, Len(p.dxfs)) THEN <<p.dxfs[p.sheets[s].cfx[k].dxf + 1]>> ELSE <<>>,
+                 "rule formats with", FlatRules(wb.sheets[s])[k]>>
+               : k \in {j \in DOMAIN p.sheets[s].cfx : ~RuleOK(p, p.sheets[s].cfx[j], FlatRules(wb.sheets[s])[j], Carriers)}}
+         : s \in DOMAIN wb.sheets}
+Intended(f) == {DxfOf(f)}
+
 (* ======================================================================= *)
 (* Part 3: the design of the writer, and the independent reader on it      *)
 (* ======================================================================= *)
@@ -226,29 +251,32 @@ RECURSIVE XfsOf(_, _, _)
 XfsOf(sheets, i, tab) ==
   IF i > Len(sheets) THEN tab
   ELSE XfsOf(sheets, i + 1, InternAll(tab, [k \in DOMAIN CellSeq(sheets[i]) |-> CellSeq(sheets[i])[k].sty]))
-RECURSIVE RulesBefore(_, _)
-RulesBefore(sheets, i) == IF i <= 1 THEN 0
-                          ELSE RulesBefore(sheets, i - 1) + FoldLeft(LAMBDA a, b : a + b, 0, sheets[i - 1].cfr)
-TotalRules(sheets) == RulesBefore(sheets, Len(sheets) + 1)
+(* differential formats are interned by content while the sheets are written (DifferentialFormats::set_style) *)
+RECURSIVE DxfTab(_, _, _)
+DxfTab(sheets, i, tab) ==
+  IF i > Len(sheets) THEN tab
+  ELSE LET rs == SelectSeq(FlatRules(sheets[i]), LAMBDA f : f.has) IN
+       DxfTab(sheets, i + 1, InternAll(tab, [k \in DOMAIN rs |-> DxfOf(rs[k])]))
 
 (* sheet XML, pass 1 (worksheet.rs): rIds are numbered along ord (an enumeration of the external hyperlinks),
    then drawing, legacy drawing, tables.  The cells are written row by row from the row table. *)
 LinkIdx(ord, l) == CHOOSE n \in DOMAIN ord : ord[n] = l
-SheetXml(wb, i, ord, sst, xfs) ==
+SheetXml(wb, i, ord, sst, xfs, dxfs) ==
   LET S    == wb.sheets[i]
       nx   == Len(ord)
       dr   == IF HasDrawing(S) THEN 1 ELSE 0
       lg   == IF HasLegacy(S) THEN 1 ELSE 0
       rowset == {x.r : x \in S.cells} \cup S.rowdims
       rowsq  == SortedSeq(rowset)
-      base == RulesBefore(wb.sheets, i)
+      rules == FlatRules(S)
   IN [part |-> SheetPart(i),
       children |-> Children(S, wb.macro),
       rows |-> [k \in DOMAIN rowsq |-> [r |-> rowsq[k], cs |-> SortedSeq({x.c : x \in {y \in S.cells : y.r = rowsq[k]}}),
                                         rr |-> IF \E y \in S.cells : y.r = rowsq[k] THEN <<rowsq[k]>> ELSE <<>>]],
       sx  |-> SortedSeq({IndexIn(xfs, x.sty) : x \in S.cells} \ {0}),
       ssx |-> SortedSeq({IndexIn(sst, x.v) : x \in TextCells(S)}),
-      dxf |-> [k \in 1..FoldLeft(LAMBDA a, b : a + b, 0, S.cfr) |-> base + k - 1],
+      cfx |-> [k \in DOMAIN rules |-> [dxf |-> IF rules[k].has THEN IndexIn(dxfs, DxfOf(rules[k])) ELSE -1]],
+      dxf |-> SortedSeq({IndexIn(dxfs, DxfOf(rules[k])) : k \in {j \in DOMAIN rules : rules[j].has}}),
       (* what the reader will find in the part *)
       cellsx |-> {IF x \in TextCells(S)
                   THEN [r |-> x.r, c |-> x.c, t |-> "s", v |-> ToString(IndexIn(sst, x.v)), f |-> x.f, sm |-> x.sm]
@@ -321,6 +349,7 @@ SaveWith(wb, ords, ords2) ==
   LET n    == Len(wb.sheets)
       sst  == SstOf(wb.sheets, 1, <<>>)
       xfs  == XfsOf(wb.sheets, 1, <<"">>)
+      dxfs == DxfTab(wb.sheets, 1, <<>>)
       a0   == [files |-> <<>>, parts |-> <<>>, rels |-> <<>>, uses |-> <<>>, macro |-> wb.macro]
       a1   == EmitPart(EmitPart(a0, "/docProps/app.xml", "app", "xml"), "/docProps/core.xml", "core", "xml")
       a2   == IF wb.macro THEN EmitPart(a1, "/xl/vbaProject.bin", "vba", "bin") ELSE a1
@@ -329,7 +358,7 @@ SaveWith(wb, ords, ords2) ==
                                                     Rel(1, "officeDocument", "/xl/workbook.xml", FALSE)>>)
       a4   == EmitPart(a3, "/xl/theme/theme1.xml", "theme", "xml")
       a5   == AllSheetParts(a4, wb, 1)
-      sx   == [i \in 1..n |-> SheetXml(wb, i, ords[i], sst, xfs)]
+      sx   == [i \in 1..n |-> SheetXml(wb, i, ords[i], sst, xfs, dxfs)]
       a6   == AllObjects(a5, 0, wb, 1, ords2)
       a7   == IF sst # <<>> THEN EmitPart(a6[1], "/xl/sharedStrings.xml", "sst", "xml") ELSE a6[1]
       a8   == EmitPart(EmitPart(a7, "/xl/styles.xml", "styles", "xml"), "/xl/workbook.xml", "workbook", "xml")
@@ -343,7 +372,7 @@ SaveWith(wb, ords, ords2) ==
                \o FoldLeft(LAMBDA a, b : a \o b, <<>>, [i \in 1..n |-> sx[i].uses]),
       wbs |-> [i \in 1..n |-> [name |-> wb.sheets[i].name, id |-> i, rid |-> "rId" \o ToString(i)]],
       active |-> IF wb.active >= n THEN (IF n = 0 THEN 0 ELSE n - 1) ELSE wb.active,
-      sheets |-> sx, nxf |-> Len(xfs), ndxf |-> TotalRules(wb.sheets), nsst |-> Len(sst),
+      sheets |-> sx, nxf |-> Len(xfs), ndxf |-> Len(dxfs), dxfs |-> dxfs, nsst |-> Len(sst),
       xfs |-> [k \in DOMAIN xfs |-> [font |-> 0, fill |-> 0, border |-> 0, xf |-> 0, numfmt |-> IF k = 1 THEN 0 ELSE 163 + k]],
       nfonts |-> 1, nfills |-> 2, nborders |-> 1, ncsx |-> 1, numfmts |-> [k \in 1..(Len(xfs) - 1) |-> 164 + k],
       tableids |-> [k \in 1..a6[2] |-> k], sst |-> sst, names |-> AllNames(wb)]
